@@ -2,6 +2,7 @@ mod common;
 mod lexmc;
 mod codemc;
 mod libmc;
+mod tmomc;
 mod workers;
 mod run;
 mod hostobj;
@@ -32,6 +33,7 @@ fn main() {
         let mode = argv.first().cloned().unwrap_or_default();
         let code = match mode.as_str() {
             "code-run" => workers::worker_loop(&mut |req| codemc::worker_run(req)),
+            "tmo-run" => workers::worker_loop(&mut |req| tmomc::worker_run(req)),
             "lib-call" => workers::worker_loop(&mut |req| libmc::worker_call(req)),
             _ => 2,
         };
@@ -42,6 +44,7 @@ fn main() {
         "lexmc" => lexmc::run(&args),
         "codemc" => codemc::run(&args),
         "libmc" => libmc::run(&args),
+        "tmomc" => tmomc::run(&args),
         "progmc-core" => progmc::run_profile(
             &args,
             run::RunCfg::default(),
